@@ -327,7 +327,8 @@ func zooWF(q rdf.Quad, requireAbs bool) string {
 			return w
 		}
 	case rdf.Literal:
-		if o.Datatype == "" {
+		if o.Datatype == "" && requireAbs {
+			// (without a base the datatype <> of Turtle / TriG stays the empty relative IRI, like any other relative IRI)
 			return "literal without datatype"
 		}
 		if w := checkIRI("datatype", o.Datatype); w != "" {
